@@ -1,13 +1,237 @@
 /-
-  Driver command `ffi`: see DESIGN.md.
+  Driver command `ffi` (property C20): replay the harness's C-API sessions.
+
+  For every call the RAW BYTES of the caller's buffer are decoded with the layout derived from
+  maybenot.h (`Ffi.decodeAction`) and
+    (a) compared with the model of the C API (`Ffi.apiOnEvents` over the framework model, constant
+        oracle: the machines are deterministic)                      → `case … ok | DIFF tags=…`
+    (b) checked by the C20 monitor (`C20.EvObs.checks` …) against the actions the Rust framework
+        returned for the same input, canaries, result codes            → `mon C20 FAIL …`
+  Tags: LAYOUT (sizeof differs from the header-derived layout), EV (event bytes / conversion),
+  RC (result code), CNT (count), A (kind, machine, flags, timer), AT (secs/nanos), BUF (bytes
+  outside the written slots), MR (framework model vs Rust framework: not C20's projection),
+  VAL (validation model vs `Framework::new`: not C20's projection), FAULT, PARSE.
 -/
 import Driver.Parse
+import MbVerif.Spec.C20
+import MbVerif.Codec
 
 namespace Driver.FfiRun
-open Mb Driver
+open Mb Driver Mb.Ffi Mb.C20
+
+def chunks (k : Nat) (bs : Bytes) : List Bytes :=
+  if k = 0 then [] else
+  let rec go (fuel : Nat) (bs : Bytes) (acc : List Bytes) : List Bytes :=
+    match fuel with
+    | 0 => acc.reverse
+    | fuel + 1 => if bs.isEmpty then acc.reverse else go fuel (bs.drop k) (bs.take k :: acc)
+  go (bs.length / k + 1) bs []
+
+def hexOrEmpty (s : String) : Option Bytes := if s == "-" then some [] else hexBytes s
+
+def evIndex (name : String) : Option String :=
+  match name with
+  | "nr" => some "NormalRecv" | "pr" => some "PaddingRecv" | "tr" => some "TunnelRecv"
+  | "ns" => some "NormalSent" | "ps" => some "PaddingSent" | "ts" => some "TunnelSent"
+  | "bb" => some "BlockingBegin" | "be" => some "BlockingEnd" | "tb" => some "TimerBegin"
+  | "te" => some "TimerEnd" | _ => none
+
+/-- an event word `name:machine`: the C event the integrator builds and the framework event it means -/
+def parseEvWord (w : String) : Option (CEvent × TEvent) :=
+  match w.splitOn ":" with
+  | [k, m] => do
+    let m ← m.toNat?
+    let nm ← evIndex k
+    let te : TEvent := match k with
+      | "nr" => .normalRecv | "pr" => .paddingRecv | "tr" => .tunnelRecv | "ns" => .normalSent
+      | "ps" => .paddingSent m | "ts" => .tunnelSent | "bb" => .blockingBegin m | "be" => .blockingEnd
+      | "tb" => .timerBegin m | _ => .timerEnd m
+    some ({ eventType := evType nm, machine := m }, te)
+  | _ => none
+
+def findOut (outs : List (List String)) (k : String) : Option (List String) :=
+  (outs.find? (fun w => w.head? == some k)).map (·.drop 1)
+
+def kindOf : CAction → CAction
+  | .cancel m t => .cancel m t
+  | .sendPadding m _ r b => .sendPadding m ⟨0, 0⟩ r b
+  | .blockOutgoing m _ r b _ => .blockOutgoing m ⟨0, 0⟩ r b ⟨0, 0⟩
+  | .updateTimer m _ r => .updateTimer m ⟨0, 0⟩ r
+
+def timesOf : CAction → List Nat
+  | .cancel .. => []
+  | .sendPadding _ t _ _ => [t.secs, t.nanos]
+  | .blockOutgoing _ t _ _ d => [t.secs, t.nanos, d.secs, d.nanos]
+  | .updateTimer _ d _ => [d.secs, d.nanos]
+
+structure St where
+  ms : List Machine := []
+  fw : Option (Fw Unit) := none
+  nm : Nat := 0
+  tags : List (Nat × String) := []      -- (op index, tag)
+  mons : List String := []
+  feats : List String := []
+  calls : Nat := 0
+  evTypes : List Nat := []
+
+def St.tag (s : St) (i : Nat) (t : String) : St := { s with tags := s.tags ++ [(i, t)] }
+def St.feat (s : St) (f : String) : St := if s.feats.contains f then s else { s with feats := s.feats ++ [f] }
+def St.mon (s : St) (i : Nat) (r : Option String) : St :=
+  match r with
+  | none => s
+  | some m => { s with mons := s.mons ++ [s!"op {i}: {m}"] }
+
+def runStart (s : St) (i : Nat) (cmd : List String) (outs : List (List String)) : St :=
+  match cmd, findOut outs "rc", findOut outs "ref", findOut outs "out", findOut outs "nm" with
+  | [on, fp, fb], some [rc], some [utf8, parse, fwref, strict], some [outw], some [nm, nmNull] =>
+    match hexNat fp, hexNat fb, rc.toNat?, nmNull.toNat? with
+    | some fp, some fb, some rc, some nmNull =>
+      let fp := UInt64.ofNat fp
+      let fb := UInt64.ofNat fb
+      let arg : MachinesArg := if utf8 != "1" then .notUtf8 else if parse != "ok" then .invalid else .parsed s.ms
+      let o : StartObs := { outNull := on == "1", arg := arg, fp := fp, fb := fb, rc := rc,
+                            outWritten := outw == "1", nm := nm.toNat?, nmNull := nmNull }
+      let s := s.mon i (firstFail o.checks)
+      let s := s.feat s!"s{rc}"
+      let s := if on == "1" then s.feat "outnull" else s
+      -- accepted although a literal split at LF leaves a piece the Rust API rejects (CRLF, trailing LF)
+      let s := if rc == RC_Ok && strict == "bad" then s.feat "lenient-lines" else s
+      -- (a) model
+      let mrc := startRc o.outNull arg fp fb
+      let s := if mrc != rc then s.tag i "RC" else s
+      let s := match arg with
+        | .parsed ms =>
+          let v := Validate.frameworkNew ms fp fb
+          if (fwref == "ok") != v then s.tag i "VAL" else s
+        | _ => s
+      if rc == RC_Ok && outw == "1" then
+        let f : Fw Unit := Fw.init constOracle s.ms fp fb 0 ()
+        let s := if f.fault.isSome then s.tag i "FAULT" else s
+        { s with fw := some f, nm := (nm.toNat?).getD 0 }
+      else s
+    | _, _, _, _ => s.tag i "PARSE"
+  | _, _, _, _, _ =>
+    if (findOut outs "skipped").isSome then s else s.tag i "PARSE"
+
+def runEv (s : St) (i : Nat) (cmd : List String) (outs : List (List String)) : St :=
+  match cmd with
+  | nulls :: guard :: pat :: words =>
+    match nulls.toList, guard.toNat?, hexNat pat, words.mapM parseEvWord, findOut outs "rc",
+          findOut outs "count", findOut outs "evraw", findOut outs "mem" with
+    | [n0, n1, n2, n3], some g, some pat, some evs, some [rc], some [cnt], some [evraw], some [mem] =>
+      match rc.toNat?, hexOrEmpty evraw, hexOrEmpty mem with
+      | some rc, some evraw, some mem =>
+        let nl : Nulls := { this := n0 == '1', events := n1 == '1', actions := n2 == '1', count := n3 == '1' }
+        let count : Option Nat := if cnt == "unset" then none else cnt.toNat?
+        let acts := outs.filter (fun w => w.head? == some "A" || w.head? == some "AT")
+        let ref := (parseActions acts).getD []
+        let refBad := (parseActions acts).isNone
+        let patSlot : Bytes := List.replicate actionL.size (UInt8.ofNat pat)
+        let o : EvObs := { nulls := nl, rc := rc, count := count, nm := s.nm, guard := g, patSlot := patSlot,
+                           mem := chunks actionL.size mem, ref := ref }
+        let s := { s with calls := s.calls + 1 }
+        let s := if refBad then s.tag i "PARSE" else s
+        -- (b) the monitor, on the implementation's observation
+        let s := s.mon i (firstFail o.checks)
+        -- coverage
+        let s := if nl.any then s.feat "null" else s
+        let s := if evs.length ≥ 2 then s.feat "batch" else s
+        let s := if evs.any (fun e => e.1.machine ≥ s.nm) then s.feat "oob" else s
+        let s := { s with evTypes := evs.foldl (fun (a : List Nat) (e : CEvent × TEvent) => if a.contains e.1.eventType then a else e.1.eventType :: a) s.evTypes }
+        let decoded := (o.slots.take (count.getD 0)).map decodeAction
+        let s := decoded.foldl (fun s d => match d with
+          | some (.cancel ..) => s.feat "aC"
+          | some (.sendPadding ..) => s.feat "aP"
+          | some (.blockOutgoing ..) => s.feat "aB"
+          | some (.updateTimer ..) => s.feat "aT"
+          | none => s.feat "undecodable") s
+        let s := match count with
+          | some 0 => s.feat "zero"
+          | some k => if k == s.nm then s.feat "full" else if k ≥ 2 then s.feat "multi" else s.feat "one"
+          | none => s
+        -- (a) the model
+        -- events: the bytes the integrator passed, read with the header-derived layout
+        let cevs := (chunks eventL.size evraw).map decodeEvent
+        let s := if cevs != evs.map (fun e => some e.1) || (evs.map (fun e => convertEvent e.1)) != evs.map (fun e => some e.2)
+                 then s.tag i "EV" else s
+        match s.fw with
+        | none =>
+          -- no instance: the only possible call has a null instance pointer
+          let s := if rc != onEventsRc nl then s.tag i "RC" else s
+          let s := if count.isSome then s.tag i "CNT" else s
+          if o.mem.any (· != patSlot) then s.tag i "BUF" else s
+        | some f =>
+          match apiOnEvents constOracle nl f 0 (evs.map (fun (e : CEvent × TEvent) => e.1)) (List.replicate (s.nm + g) patSlot) with
+          | none => s.tag i "EV"
+          | some out =>
+            let s := if out.rc != rc then s.tag i "RC" else s
+            let s := if out.count != count then s.tag i "CNT" else s
+            let s := if out.fw.fault.isSome then s.tag i "FAULT" else s
+            -- decoded slots of the implementation vs decoded slots of the model's buffer
+            let k := out.count.getD 0
+            let mdec := (out.buf.take k).map decodeAction
+            let s := if decoded.map (Option.map kindOf) != mdec.map (Option.map kindOf) then s.tag i "A" else s
+            let s := if decoded.map (Option.map timesOf) != mdec.map (Option.map timesOf) then s.tag i "AT" else s
+            -- everything else in the caller's memory: untouched in the model
+            let s := if o.mem.take g != List.replicate g patSlot || o.mem.drop (g + k) != out.buf.drop k then s.tag i "BUF" else s
+            -- framework model vs Rust framework (reference), outside C20's projection
+            let s := if !nl.any && out.fw.actionsOut != ref then s.tag i "MR" else s
+            { s with fw := some out.fw }
+      | _, _, _ => s.tag i "PARSE"
+    | _, _, _, _, _, _, _, _ => s.tag i "PARSE"
+  | _ => s.tag i "PARSE"
+
+def runStop (s : St) (i : Nat) (outs : List (List String)) : St :=
+  let s := match findOut outs "leak" with
+    | some [b, a] =>
+      match b.toNat?, a.toNat? with
+      | some b, some a => (s.mon i (firstFail (StopObs.checks { before := b, after := a }))).feat "leakchk"
+      | _, _ => s.tag i "PARSE"
+    | some ["na"] => s.feat "leakna"
+    | _ => s
+  { s with fw := none, nm := 0 }
+
+def runVersion (s : St) (i : Nat) (outs : List (List String)) : St :=
+  match findOut outs "version" with
+  | some [got, want] =>
+    let s := s.feat "ver"
+    if got != want then s.mon i (some s!"maybenot_version returned {got}, expected {want}") else s
+  | _ => s.tag i "PARSE"
+
+def runCase (c : CaseBlock) : St :=
+  let ms := (c.header.filter (fun ws => ws.head? == some "m")).map (fun ws => match ws with
+    | ["m", h] => (hexBytes h).bind Codec.decodeMachine
+    | _ => none)
+  let s : St := { ms := ms.filterMap id }
+  let s := if ms.any Option.isNone then s.tag 0 "PARSE" else s
+  -- the Rust compiler's layout vs the layout computed from maybenot.h
+  let s := match c.header.find? (fun ws => ws.head? == some "sizes") with
+    | some ["sizes", a, al, e] =>
+      if a.toNat? != some actionL.size || al.toNat? != some actionL.align || e.toNat? != some eventL.size then s.tag 0 "LAYOUT" else s
+    | _ => s.tag 0 "PARSE"
+  let s := s.feat s!"n{s.ms.length}"
+  let (s, _) := c.ops.foldl (fun (acc : St × Nat) op =>
+    let (s, i) := acc
+    let s := match op.cmd with
+      | "start" :: rest => runStart s i rest op.outs
+      | "ev" :: rest => runEv s i rest op.outs
+      | ["stop"] => runStop s i op.outs
+      | ["version"] => runVersion s i op.outs
+      | _ => s.tag i "PARSE"
+    (s, i + 1)) (s, 1)
+  if s.evTypes.length == 10 then s.feat "ev10" else s
 
 /-- run the `ffi` command over the parsed case blocks; `args` are the extra command-line words -/
-def run (_cases : List CaseBlock) (_args : List String) : IO Unit := do
-  IO.println "ffi: not implemented"
+def run (cases : List CaseBlock) (_args : List String) : IO Unit := do
+  for c in cases do
+    let s := runCase c
+    if s.tags.isEmpty then
+      IO.println s!"case {c.id} {c.kind} ok calls={s.calls}"
+    else
+      let tags := s.tags.foldl (fun a t => if a.contains t.2 then a else a ++ [t.2]) ([] : List String)
+      IO.println s!"case {c.id} {c.kind} DIFF tags={String.intercalate "," tags} firstop={(s.tags.head?.map (·.1)).getD 0}"
+    IO.println s!"sig {c.id} {String.intercalate "," s.feats}"
+    for m in s.mons do
+      IO.println s!"mon C20 FAIL {c.id} {m}"
 
 end Driver.FfiRun
